@@ -39,12 +39,22 @@ func (b *Buffer) Put(key, value []byte) {
 	b.mu.Lock()
 	defer b.mu.Unlock()
 
-	// Store in the operations map - skiplist handles defensive copying
+	// Store defensive copies: the caller may reuse its slices after the call
 	b.operations[string(key)] = &Operation{
-		Key:      key,
-		Value:    value,
+		Key:      copyBytes(key),
+		Value:    copyBytes(value),
 		IsDelete: false,
 	}
+}
+
+// copyBytes returns a copy of b that shares no memory with it (nil stays nil)
+func copyBytes(b []byte) []byte {
+	if b == nil {
+		return nil
+	}
+	c := make([]byte, len(b))
+	copy(c, b)
+	return c
 }
 
 // Delete marks a key as deleted in the transaction buffer
@@ -52,9 +62,9 @@ func (b *Buffer) Delete(key []byte) {
 	b.mu.Lock()
 	defer b.mu.Unlock()
 
-	// Store in the operations map - skiplist handles defensive copying
+	// Store a defensive copy: the caller may reuse its slice after the call
 	b.operations[string(key)] = &Operation{
-		Key:      key,
+		Key:      copyBytes(key),
 		Value:    nil,
 		IsDelete: true,
 	}
